@@ -174,6 +174,27 @@ fn main() {
                 eprintln!("bad replay file: {e}");
                 exit(2)
             });
+            if v["whole_run"].as_bool() == Some(true) {
+                // a crash that needs the whole deterministic run: run it again under supervision
+                let run_args: Vec<String> = v["args"].as_array().map(|a| a.iter().filter_map(|x| x.as_str().map(String::from)).collect()).unwrap_or_default();
+                let mut cmd = std::process::Command::new(std::env::current_exe().unwrap());
+                cmd.args(&run_args).arg("--worker").stdout(std::process::Stdio::null());
+                if let Some(seed) = v["verif_seed"].as_str().filter(|s| !s.is_empty()) {
+                    cmd.env("VERIF_SEED", seed);
+                }
+                let st = cmd.status().expect("spawn worker");
+                match st.code() {
+                    Some(c @ (0 | 1 | 2)) => {
+                        println!("replay: the whole run ended with status {c} this time");
+                        exit(if c == 1 { 1 } else { 0 })
+                    },
+                    _ => {
+                        println!("replay: the whole run terminated the process abnormally again ({st})");
+                        println!("VIOLATION property={} replay={}", v["property"].as_str().unwrap_or("?"), args[2]);
+                        exit(1)
+                    },
+                }
+            }
             let id = v["property"].as_str().unwrap_or("");
             let part = v["part"].as_str().unwrap_or("");
             let choices: Vec<u64> = v["choices"]
